@@ -44,6 +44,12 @@ PROPS['C16'] = dict(level='proof', steps=[E3('c16-text', complete=True), E3('c16
                 text='every clause over a finite domain is decided by complete enumeration on the real functions: all 1 112 064 scalar values through text_string/decode_text_string, all 5 x 256 table entries (decode total, re-encode stable, published WinAnsi/MacRoman/PDFDoc values); multi-character strings are a bounded family; text extraction through a saved file is not covered here.',
                 note='std UTF-8/UTF-16 conversions trusted for the step from single characters to strings; Verus cannot reason about str, so no contract was placed on these functions')
 
+PROPS['C07'] = dict(level='proof', steps=[V('reader'), V('writer'), E3('c07-histories')],
+                title='Incremental updates: latest revision wins, history preserved',
+                technique='Verus contracts: Xref::merge first-wins, IncrementalDocument::save_internal prefix + revision layout, search_substring = last occurrence; bounded histories through the real loader',
+                text='Xref::merge never replaces an existing (newer) entry and adds every other one; incremental save emits the previous bytes unchanged followed by exactly one well-formed revision; startxref discovery takes the last occurrence (all unbounded, Verus). The Prev-chain loop and object-stream merge inside Reader::read are exercised on bounded histories only.',
+                note='Reader::read (Prev loop, object-stream merge) is not under contract: bounded stand-in; nom parsers trusted')
+
 NOT_APPLICABLE = {
     'C18': "every clause is about what chrono/jiff/time format and parse; the crate's own code is two string edits, so no contract within either verifier's reach expresses the property",
 }
